@@ -21,12 +21,24 @@ struct Mon {
     accepted: Vec<u32>,
     /// Some(true/false): the next uplink must / must not carry a DevStatusAns
     expect_devstatus: Option<bool>,
+    /// a DevStatusReq accepted in a Class A window is waiting for the next uplink
+    class_a_req_pending: bool,
     cur_keys: Option<([u8; 16], [u8; 16], u32)>,
 }
 
-fn has_devstatus_req(fopts: &[u8], fport: Option<u8>, plain: &[u8]) -> bool {
-    // generator only ever puts a lone DevStatusReq (0x06) in FOpts or port 0
-    fopts == [0x06] || (fport == Some(0) && plain == [0x06])
+/// Some(true): the frame's command stream is exactly one DevStatusReq; Some(false): it contains none;
+/// None: a DevStatusReq among other commands (its answer may be crowded out: no expectation).
+fn devstatus_req(fopts: &[u8], fport: Option<u8>, plain: &[u8]) -> Option<bool> {
+    let stream: &[u8] = if fport == Some(0) { plain } else { fopts };
+    let reqs = crate::refmac::parse_downlink_cmds(stream);
+    let n = reqs.iter().filter(|r| matches!(r, crate::refmac::Req::DevStatus)).count();
+    if n == 0 {
+        Some(false)
+    } else if reqs.len() == 1 {
+        Some(true)
+    } else {
+        None
+    }
 }
 
 impl Monitor for Mon {
@@ -40,6 +52,7 @@ impl Monitor for Mon {
             self.cur_keys = keys;
             self.accepted.clear();
             self.expect_devstatus = None;
+            self.class_a_req_pending = false;
         }
         let reacts = reactions(w, rec);
         let dels: Vec<crate::world::Delivered> = w.env.borrow().delivered[rec.del_lo..rec.del_hi].to_vec();
@@ -47,10 +60,11 @@ impl Monitor for Mon {
         let region = w.env.borrow().cfg.region;
 
         // MAC answers of the previous Class A downlink show up in this uplink
-        if let (Op::Send { .. }, Some(want)) = (&rec.op, self.expect_devstatus) {
+        if let (Op::Send { .. }, Some(want), Some(k)) = (&rec.op, self.expect_devstatus, keys) {
             if let Some(tx) = tx_events(w, rec).first() {
-                if let Some(p) = rc::parse_data(&tx.bytes) {
-                    let has = p.fopts.first() == Some(&0x06) && p.fopts.len() == 3;
+                // the answers travel in FOpts, or in the port-0 FRMPayload when the application sent an empty port-0 uplink
+                if let (Some(p), Some(Ok(cmds))) = (rc::parse_data(&tx.bytes), super::c08::uplink_cmds(&tx.bytes, &k, rec.fcnt_up_after)) {
+                    let has = cmds.iter().any(|a| a.cid == 0x06);
                     if want && !has {
                         return Some(Violation::new(
                             "C05.classA-mac-not-executed",
@@ -69,6 +83,9 @@ impl Monitor for Mon {
                 }
                 self.expect_devstatus = None;
             }
+        }
+        if matches!(rec.op, Op::Send { .. }) && !tx_events(w, rec).is_empty() {
+            self.class_a_req_pending = false;
         }
 
         let mut unspecified = false;
@@ -143,12 +160,23 @@ impl Monitor for Mon {
                             expected_dl.push((*p, plain.clone()));
                         }
                     }
-                    if has_devstatus_req(fopts, *fport, plain) {
-                        if class_a {
+                    match (devstatus_req(fopts, *fport, plain), class_a) {
+                        // a Class A downlink replaces whatever was expected before
+                        (Some(true), true) => {
                             self.expect_devstatus = Some(true);
-                        } else if self.expect_devstatus.is_none() {
-                            self.expect_devstatus = Some(false);
+                            self.class_a_req_pending = true;
                         }
+                        (None, true) => {
+                            // a Class A DevStatusReq among other commands: its answer may or may not fit
+                            self.expect_devstatus = None;
+                            self.class_a_req_pending = true;
+                        }
+                        (Some(true), false) | (None, false) => {
+                            if self.expect_devstatus.is_none() && !self.class_a_req_pending {
+                                self.expect_devstatus = Some(false);
+                            }
+                        }
+                        (Some(false), _) => {}
                     }
                 }
                 Verdict::Reject(why) => {
@@ -344,13 +372,62 @@ impl Property for C05 {
             Tier::Thorough => 30_000_000,
         }
     }
-    fn generate(&self, seed: u64, run: u64, _tier: Tier, _avoid: &BTreeSet<String>) -> MacCase {
+    fn generate(&self, seed: u64, run: u64, tier: Tier, avoid: &BTreeSet<String>) -> MacCase {
+        // one run in five borrows another property"s generator (same case type), so that this oracle also
+        // judges histories of shapes its own generator does not produce
+        if let Some(c) = super::cross_generate("C05", &["C04", "C07", "C08", "C09", "C10", "C11", "C12"], seed, run, tier, avoid) {
+            return c;
+        }
+        self.own_generate(seed, run, tier, avoid)
+    }
+    fn execute(&self, case: &MacCase, want_trace: bool) -> Outcome {
+        let mut mon = Mon { accepted: vec![], expect_devstatus: None, class_a_req_pending: false, cur_keys: None };
+        let out = run_case(case, &mut mon, want_trace);
+        Outcome { violation: out.violation, stats: out.stats, trace: out.trace }
+    }
+    fn self_test(&self) -> Result<(), String> {
+        crate::self_test_refs()?;
+        use crate::world::cand_counter;
+        let t = |l: Option<u32>, w: u16, want: Option<u32>| if cand_counter(l, w) == want { Ok(()) } else { Err(format!("cand_counter({l:?},{w}) != {want:?}")) };
+        t(None, 7, Some(7))?;
+        t(Some(5), 6, Some(6))?;
+        t(Some(5), 5, None)?;
+        t(Some(5), 5 + 16384, Some(5 + 16384))?;
+        t(Some(5), 5 + 16385, None)?;
+        t(Some(0xFFFF), 0, Some(0x1_0000))?;
+        t(Some(0xFFFF_FFFE), 0, None)?;
+        t(Some(0xFFFF_FFFE), 0xFFFF, Some(0xFFFF_FFFF))?;
+        t(Some(0xFFFF_FFFF), 0, None)?;
+        t(Some(0x3_FFFF), 0x3FFF, Some(0x4_3FFF))?;
+        t(Some(0x3_FFFF), 0x4000, None)?;
+        Ok(())
+    }
+    fn expected_probes(&self, _tier: Tier) -> Vec<&'static str> {
+        vec![
+            "probe.first-downlink-accepted",
+            "probe.accepted-at-L+16384",
+            "probe.epoch-rollover-accepted",
+            "probe.accepted-near-2^32",
+            "probe.accepted-at-exact-max-size",
+            "probe.rejected-not-fresh",
+            "probe.rejected-mic",
+            "probe.oversize-delivered",
+            "probe.payload-compared",
+            "probe.classA-mac-answer-seen",
+            "probe.rxc-mac-not-executed",
+            "probe.frame-fills-small-radio-buffer",
+        ]
+    }
+}
+
+impl C05 {
+    pub fn own_generate(&self, seed: u64, run: u64, _tier: Tier, _avoid: &BTreeSet<String>) -> MacCase {
         let mut r = Rng::new(run_seed(seed, "C05", run));
         let mut cfg = gen_cfg(&mut r, &CfgProfile { frontends: ALL_FRONTENDS, otaa_pct: 0, boundary_counters_pct: 75, join_bias_pct: 0 });
         if r.chance(3, 4) {
             cfg.fcnt_up0 = *r.pick(&[0u32, 5, 0xFFFF, 70000]);
         }
-        if cfg.frontend != Frontend::Nb && r.chance(1, 12) {
+        if r.chance(1, 12) {
             // a device whose radio buffer is smaller than the largest frame: frames that exactly fill it
             cfg.small_buffer = true;
             cfg.board = 0;
@@ -393,43 +470,5 @@ impl Property for C05 {
             }
         }
         MacCase { cfg, ops, knob: 0 }
-    }
-    fn execute(&self, case: &MacCase, want_trace: bool) -> Outcome {
-        let mut mon = Mon { accepted: vec![], expect_devstatus: None, cur_keys: None };
-        let out = run_case(case, &mut mon, want_trace);
-        Outcome { violation: out.violation, stats: out.stats, trace: out.trace }
-    }
-    fn self_test(&self) -> Result<(), String> {
-        crate::self_test_refs()?;
-        use crate::world::cand_counter;
-        let t = |l: Option<u32>, w: u16, want: Option<u32>| if cand_counter(l, w) == want { Ok(()) } else { Err(format!("cand_counter({l:?},{w}) != {want:?}")) };
-        t(None, 7, Some(7))?;
-        t(Some(5), 6, Some(6))?;
-        t(Some(5), 5, None)?;
-        t(Some(5), 5 + 16384, Some(5 + 16384))?;
-        t(Some(5), 5 + 16385, None)?;
-        t(Some(0xFFFF), 0, Some(0x1_0000))?;
-        t(Some(0xFFFF_FFFE), 0, None)?;
-        t(Some(0xFFFF_FFFE), 0xFFFF, Some(0xFFFF_FFFF))?;
-        t(Some(0xFFFF_FFFF), 0, None)?;
-        t(Some(0x3_FFFF), 0x3FFF, Some(0x4_3FFF))?;
-        t(Some(0x3_FFFF), 0x4000, None)?;
-        Ok(())
-    }
-    fn expected_probes(&self, _tier: Tier) -> Vec<&'static str> {
-        vec![
-            "probe.first-downlink-accepted",
-            "probe.accepted-at-L+16384",
-            "probe.epoch-rollover-accepted",
-            "probe.accepted-near-2^32",
-            "probe.accepted-at-exact-max-size",
-            "probe.rejected-not-fresh",
-            "probe.rejected-mic",
-            "probe.oversize-delivered",
-            "probe.payload-compared",
-            "probe.classA-mac-answer-seen",
-            "probe.rxc-mac-not-executed",
-            "probe.frame-fills-small-radio-buffer",
-        ]
     }
 }
